@@ -129,7 +129,7 @@ Proof.
   rewrite K. auto.
 Qed.
 
-Ltac done := wnorm; cbn [o_tx o_rel]; wnorm; unfold body in *; cbn [pm_body pm_hdr fst snd] in *; try lia.
+Ltac done := wnorm; cbn [o_tx o_rel]; wnorm; cbn [o_tx o_rel]; wnorm; unfold body in *; cbn [pm_body pm_hdr fst snd] in *; try lia.
 
 (* ================================================================== *)
 (* cooked SURVEYOR *)
@@ -429,3 +429,444 @@ Example surv_ok_nonvacuous :
      PSetOpt None (OSurveyTime 500); PCtxOpen 5; PSend (Some 5%N) 3 false (mkPmsg [] [8%N]);
      PTick 10; PPipeClose 1; PSockClose].
 Proof. vm_compute. repeat split. Qed.
+
+(* ================================================================== *)
+(* raw SURVEYOR and raw RESPONDENT: the upper read queue and the pipe records they share *)
+Definition xp_ok (x : xpipe) : Prop := xp_busy x = false -> xp_held x = [].
+Definition pipes_inv (l : list (pid * xpipe)) : Prop := NoDup (map fst l) /\ Forall (fun px => xp_ok (snd px)) l.
+
+(* the references the upper read queue stands for: queued messages and those of the blocked writers *)
+Definition US (F : owner * key -> nat) (u : urq) : nat :=
+  qs F (uq_q u) + wsum (fun x : pid * pmsg => F (OProto, body (snd x))) (uq_writers u).
+
+Lemma raw_omega F pipes u :
+  qs F (VXsurv.pipes_held pipes ++ VXsurv.urq_held u)
+  + wsum (fun x => F (OPipe (fst x), body (snd x))) (VXsurv.pipes_tx pipes)
+  = QH xp_q F pipes + US F u + TH xp_held F pipes.
+Proof.
+  unfold VXsurv.pipes_held, VXsurv.urq_held, US. rewrite !wsum_app, wsum_map, wsum_held.
+  change (VXsurv.pipes_tx pipes) with (ptx xp_held pipes). rewrite wsum_ptx. lia.
+Qed.
+
+Ltac inj H := injection H as <- <-.
+
+Lemma run_putq_sum F : forall fuel u u' o, run_putq fuel u = (u', o) -> US F u = US F u' + o_rel F o /\ o_tx F o = 0.
+Proof.
+  induction fuel as [|f IH]; intros u u' o H; cbn [run_putq] in H; [inj H; cbn [o_tx o_rel]; lia|].
+  destruct (uq_writers u) as [|[p m] ws] eqn:W; [inj H; cbn [o_tx o_rel]; lia|].
+  destruct (uq_readers u) as [|a rs] eqn:R.
+  - destruct (length (uq_q u) <? uq_cap u); [|inj H; cbn [o_tx o_rel]; lia].
+    destruct (run_putq f _) as [u1 o1] eqn:E. destruct (IH _ _ _ E) as [S1 S2]. inj H.
+    unfold US in *. cbn [uq_q uq_writers] in S1. rewrite W. cbn [o_tx o_rel]. done.
+  - destruct (run_putq f _) as [u1 o1] eqn:E. destruct (IH _ _ _ E) as [S1 S2]. inj H.
+    unfold US in *. cbn [uq_q uq_writers] in S1. rewrite W. cbn [o_tx o_rel]. change (E_OK =? 0)%N with true. cbn iota. done.
+Qed.
+Lemma run_getq_sum F : forall fuel u u' o, run_getq fuel u = (u', o) -> US F u = US F u' + o_rel F o /\ o_tx F o = 0.
+Proof.
+  induction fuel as [|f IH]; intros u u' o H; cbn [run_getq] in H; [inj H; cbn [o_tx o_rel]; lia|].
+  destruct (uq_readers u) as [|a rs] eqn:R; [inj H; cbn [o_tx o_rel]; lia|].
+  destruct (uq_q u) as [|m q'] eqn:Q.
+  - destruct (uq_writers u) as [|[p m] ws] eqn:W; [inj H; cbn [o_tx o_rel]; lia|].
+    destruct (run_getq f _) as [u1 o1] eqn:E. destruct (IH _ _ _ E) as [S1 S2]. inj H.
+    unfold US in *. cbn [uq_q uq_writers] in S1. rewrite W, Q. cbn [o_tx o_rel]. change (E_OK =? 0)%N with true. cbn iota. done.
+  - destruct (run_getq f _) as [u1 o1] eqn:E. destruct (IH _ _ _ E) as [S1 S2]. inj H.
+    unfold US in *. cbn [uq_q uq_writers] in S1. rewrite Q. cbn [o_tx o_rel]. change (E_OK =? 0)%N with true. cbn iota. done.
+Qed.
+Lemma urq_put_sum F u p m u' o : urq_put u p m = (u', o) -> US F u + F (OProto, body m) = US F u' + o_rel F o /\ o_tx F o = 0.
+Proof.
+  unfold urq_put. intros H. destruct (run_putq_sum F _ _ _ _ H) as [S1 S2]. split; [|exact S2].
+  unfold US in *. cbn [uq_q uq_writers] in S1. done.
+Qed.
+Lemma urq_get_sum F u a u' o : urq_get u a = (u', o) -> US F u = US F u' + o_rel F o /\ o_tx F o = 0.
+Proof. unfold urq_get. intros H. exact (run_getq_sum F _ _ _ _ H). Qed.
+Lemma urq_get_fx_sum F fx u a u' o : urq_get_fx fx u a = (u', o) -> US F u = US F u' + o_rel F o /\ o_tx F o = 0.
+Proof.
+  unfold urq_get_fx. destruct (urq_get u a) as [u1 o1] eqn:E. destruct (urq_get_sum F _ _ _ _ E) as [S1 S2].
+  destruct (mf_getput fx); intros H.
+  - destruct (run_putq _ u1) as [u2 o2] eqn:E2. destruct (run_putq_sum F _ _ _ _ E2) as [P1 P2]. inj H. done.
+  - inj H. auto.
+Qed.
+Lemma urq_user_recv_sum F fx u a nb u' o : urq_user_recv fx u a nb = (u', o) -> US F u = US F u' + o_rel F o /\ o_tx F o = 0.
+Proof.
+  unfold urq_user_recv. destruct (nb && (negb (mf_nb fx) || urq_get_waits u)); intros H.
+  - inj H. cbn [o_tx o_rel]. lia.
+  - exact (urq_get_fx_sum F _ _ _ _ _ H).
+Qed.
+Lemma urq_cancel_sum F u a rv u' o : urq_cancel u a rv = (u', o) -> US F u = US F u' + o_rel F o /\ o_tx F o = 0.
+Proof. unfold urq_cancel. destruct (has_id a (uq_readers u)); intros H; inj H; unfold US; cbn [uq_q uq_writers o_tx o_rel]; lia. Qed.
+Lemma urq_drop_writer_sum F u p u' o : urq_drop_writer u p = (u', o) -> US F u = US F u' + o_rel F o /\ o_tx F o = 0.
+Proof.
+  unfold urq_drop_writer. intros H. inj H. unfold US. cbn [uq_q uq_writers].
+  pose proof (wsum_filter_key (fun x : N * pmsg => F (OProto, body (snd x))) p (uq_writers u)) as K.
+  rewrite o_tx_Free, o_rel_Free, wsum_map. lia.
+Qed.
+Lemma urq_close_sum F u u' o : urq_close u = (u', o) -> US F u = US F u' + o_rel F o /\ o_tx F o = 0.
+Proof. unfold urq_close. intros H. inj H. unfold US. cbn [uq_q uq_writers]. done. Qed.
+Lemma urq_resize_sum F fx u n u' o : urq_resize fx u n = (u', o) -> US F u = US F u' + o_rel F o /\ o_tx F o = 0.
+Proof.
+  unfold urq_resize. intros H.
+  set (ex := length (uq_q u) - (n + 1)) in *.
+  assert (S0 : US F u = US F (mkUrq (skipn ex (uq_q u)) n (uq_readers u) (uq_writers u)) + qs F (firstn ex (uq_q u))).
+  { unfold US. cbn [uq_q uq_writers]. rewrite <- (firstn_skipn ex (uq_q u)) at 1. wnorm. lia. }
+  destruct (mf_resize fx).
+  - destruct (run_putq _ _) as [u2 o2] eqn:E2. destruct (run_getq _ u2) as [u3 o3] eqn:E3. inj H.
+    destruct (run_putq_sum F _ _ _ _ E2) as [P1 P2]. destruct (run_getq_sum F _ _ _ _ E3) as [G1 G2]. done.
+  - inj H. done.
+Qed.
+Lemma raw_setopt_sum F fx ttl u uw c op t u' w o :
+  raw_setopt fx ttl u uw c op = (t, u', w, o) -> US F u = US F u' + o_rel F o /\ o_tx F o = 0.
+Proof.
+  unfold raw_setopt. intros H.
+  destruct c; destruct op;
+    repeat match type of H with context [if ?b then _ else _] => destruct b end;
+    try (injection H as <- <- <- <-; cbn [o_tx o_rel]; lia).
+  destruct (urq_resize fx u n) as [u1 o1] eqn:E. destruct (urq_resize_sum F _ _ _ _ _ E) as [S1 S2].
+  injection H as <- <- <- <-. done.
+Qed.
+
+(* nni_msgq_tryput on a pipe's send queue: the offered reference goes to the pipe, into the queue, or is freed *)
+Lemma xpipe_tryput_sum F cap p x m x' o :
+  xp_ok x -> xpipe_tryput cap p x m = (x', o) ->
+  (qs F (xp_q x) + ts F p (xp_held x) + F (OProto, body m) + o_tx F o
+   = qs F (xp_q x') + ts F p (xp_held x') + o_rel F o)
+  /\ no_send_done o = true /\ xp_ok x'.
+Proof.
+  unfold xpipe_tryput, xp_ok. intros Hx H.
+  destruct (xp_closed x); [inj H; cbn [o_tx o_rel no_send_done]; repeat split; auto; lia|].
+  destruct (xp_busy x) eqn:B; cbn [negb] in H.
+  - destruct (length (xp_q x) <? cap); inj H; cbn [o_tx o_rel no_send_done xp_q xp_held xp_busy]; wnorm;
+      (split; [lia|split; [reflexivity|]]). all: first [exact Hx|intros X; congruence].
+  - inj H. cbn [o_tx o_rel no_send_done xp_q xp_held xp_busy]. rewrite (Hx eq_refl). wnorm.
+    split; [lia|split; [reflexivity|]]. intros X; discriminate X.
+Qed.
+(* send_cb *)
+Lemma xpipe_sent_sum F p x rv x' o :
+  xpipe_sent p x rv = (x', o) ->
+  (qs F (xp_q x) + (if N.eqb rv 0 then 0 else qs F (xp_held x)) + o_tx F o
+   = qs F (xp_q x') + ts F p (xp_held x') + o_rel F o)
+  /\ xp_ok x'.
+Proof.
+  unfold xpipe_sent, xp_ok. intros H. destruct (N.eqb rv 0); cbn [negb] in H.
+  - destruct (xp_closed x); [inj H; cbn [o_tx o_rel xp_q xp_held xp_busy]; wnorm; split; [lia|auto]|].
+    destruct (xp_q x) as [|m r]; inj H; cbn [o_tx o_rel xp_q xp_held xp_busy]; wnorm; (split; [lia|auto]).
+    intros X; discriminate X.
+  - inj H. cbn [xp_q xp_held xp_busy]. done. split; [lia|auto].
+Qed.
+
+(* xsurv0_sock_getq_cb *)
+Lemma xfanout_sum F m : forall l l' o,
+  Forall (fun px => xp_ok (snd px)) l -> xfanout m l = (l', o) ->
+  (QH xp_q F l + TH xp_held F l
+     + wsum (fun _ : pid * xpipe => F (OProto, body m)) (filter (fun px => negb (xp_closed (snd px))) l) + o_tx F o
+   = QH xp_q F l' + TH xp_held F l' + o_rel F o)
+  /\ no_send_done o = true /\ map fst l' = map fst l /\ Forall (fun px => xp_ok (snd px)) l'.
+Proof.
+  induction l as [|[p x] l IH]; intros l' o Hf H; cbn [xfanout] in H.
+  - inj H. repeat split; auto.
+  - inversion Hf as [|? ? Hx Hl]; subst. cbn [snd] in Hx.
+    destruct (xfanout m l) as [r' o'] eqn:E. destruct (IH r' o' Hl eq_refl) as (S1 & S2 & S3 & S4).
+    cbn [filter snd].
+    destruct (xp_closed x) eqn:C; cbn [negb].
+    + inj H. rewrite !QH_cons, !TH_cons. cbn [map fst].
+      split; [lia|]. split; [auto|]. split; [congruence|]. constructor; auto.
+    + destruct (xpipe_tryput XSURV_SENDQ p x m) as [x' o1] eqn:T. inj H.
+      destruct (xpipe_tryput_sum F _ _ _ _ _ _ Hx T) as (T1 & T2 & T3).
+      rewrite !QH_cons, !TH_cons. cbn [map fst]. wnorm.
+      split; [lia|]. split.
+      { clear - T2 S2. induction o1 as [|y o1 IHo]; [exact S2|]. cbn [app no_send_done] in *.
+        destruct y; auto. destruct m; [auto|discriminate]. }
+      split; [congruence|]. constructor; auto.
+Qed.
+
+(* ================================================================== *)
+(* raw SURVEYOR *)
+Definition XSInv (s : xsurv) : Prop := pipes_inv (xs_pipes s).
+(* the environment: a pipe id is started once *)
+Definition raw_ok (pipes : list (pid * xpipe)) (o : pop) : Prop :=
+  match o with PPipeStart p _ => has_id p (map fst pipes) = false | _ => True end.
+Definition xsurv_ok (s : xsurv) (o : pop) : Prop := raw_ok (xs_pipes s) o.
+
+Lemma xsurv_inv_init : XSInv xsurv_init.
+Proof. split; cbn; constructor. Qed.
+
+Lemma xsurv_omega fx F s :
+  w_omega F (VXsurv.view fx) s = QH xp_q F (xs_pipes s) + US F (xs_urq s) + TH xp_held F (xs_pipes s).
+Proof.
+  unfold w_omega. cbn [VXsurv.view v_held v_tx v_att]. rewrite wsum_nil.
+  pose proof (raw_omega F (xs_pipes s) (xs_urq s)). lia.
+Qed.
+
+Lemma pipes_inv_kset l p y : pipes_inv l -> xp_ok y -> pipes_inv (kset p y l).
+Proof. intros [H1 H2] Hy. split; [now apply nodup_kset|]. apply forall_kset; auto. Qed.
+Lemma pipes_inv_start l p : pipes_inv l -> has_id p (map fst l) = false -> pipes_inv (l ++ [(p, xpipe_init)]).
+Proof.
+  intros [H1 H2] Hp. split.
+  - rewrite map_app. cbn [map fst]. apply nodup_snoc; [assumption|]. intros Hi. apply has_id_in in Hi. congruence.
+  - apply Forall_app. split; [assumption|]. constructor; [|constructor]. intros _. reflexivity.
+Qed.
+Lemma pipes_inv_get l p x : pipes_inv l -> kget p l = Some x -> xp_ok x.
+Proof. intros [_ H2] K. rewrite Forall_forall in H2. exact (H2 _ (kget_in _ _ _ K)). Qed.
+
+Ltac xview fx := rewrite !(xsurv_omega fx); cbn [xs_pipes xs_urq].
+
+Lemma xsurv_law_sum fx s o s' outs :
+  XSInv s -> xsurv_ok s o -> xsurv_step fx s o = (s', outs) -> law_sum (VXsurv.view fx) s o s' outs.
+Proof.
+  intros [I1 I2] Hok H.
+  destruct o as [c a nb m|c a nb|a rv|p peer|p|p rv|p rv m|c op|c|c| |now].
+  2-12: apply law_sum_quiet; [reflexivity|intros; discriminate|reflexivity|reflexivity|reflexivity|intros F].
+  - (* PSend *)
+    cbn [xsurv_step] in H. intros F. cbv zeta.
+    cbn [v_extra v_clones v_dups VXsurv.view]. unfold VXsurv.clones, VXsurv.accepted, no_keys.
+    destruct (nb && negb (mf_nb fx)).
+    + inj H. cbn [flat_map map app op_add op_del s_take s_del]. rewrite send_key_self.
+      change (E_AGAIN =? 0)%N with false. cbn iota. done.
+    + destruct (xfanout m (xs_pipes s)) as [ps o1] eqn:X. inj H.
+      destruct (xfanout_sum F _ _ _ _ I2 X) as (S1 & S2 & S3 & S4).
+      destruct (s_quiet (VXsurv.view fx) F s (PSend c a nb m) o1 S2) as [A B].
+      cbn [flat_map map app]. xview fx. cbn [op_add op_del s_take s_del]. rewrite send_key_self.
+      change (E_OK =? 0)%N with true. cbn iota. rewrite A, B. done.
+  - (* PRecv *)
+    cbn [xsurv_step] in H. cbn [op_add op_del].
+    destruct (urq_user_recv fx (xs_urq s) a nb) as [u' o1] eqn:E. inj H.
+    destruct (urq_user_recv_sum F _ _ _ _ _ _ E) as [S1 S2]. xview fx. lia.
+  - (* PCancel *)
+    cbn [xsurv_step] in H. cbn [op_add op_del].
+    destruct (urq_cancel (xs_urq s) a rv) as [u' o1] eqn:E. inj H.
+    destruct (urq_cancel_sum F _ _ _ _ _ E) as [S1 S2]. xview fx. lia.
+  - (* PPipeStart *)
+    cbn [xsurv_step] in H. cbn [op_add op_del].
+    destruct (negb (peer =? PROTO_RESPONDENT)%N); inj H; [cbn [o_tx o_rel]; lia|].
+    xview fx. rewrite QH_snoc, TH_snoc. cbn [xpipe_init xp_q xp_held]. done.
+  - (* PPipeClose *)
+    cbn [xsurv_step] in H. cbn [op_add op_del].
+    destruct (kget p (xs_pipes s)) as [x|] eqn:KP; [|inj H; cbn [o_tx o_rel]; lia].
+    destruct (urq_drop_writer (xs_urq s) p) as [u' o1] eqn:E. inj H.
+    destruct (urq_drop_writer_sum F _ _ _ _ E) as [S1 S2].
+    pose proof (QH_kset xp_q F p (mkXpipe [] (xp_busy x) (xp_held x) true) _ _ KP) as K1.
+    pose proof (TH_kset xp_held F p (mkXpipe [] (xp_busy x) (xp_held x) true) _ _ KP) as K2.
+    cbn [xp_q xp_held] in K1, K2. xview fx. done.
+  - (* PSendDone *)
+    cbn [xsurv_step] in H. cbn [op_add op_del v_tx VXsurv.view].
+    change (VXsurv.pipes_tx (xs_pipes s)) with (ptx xp_held (xs_pipes s)).
+    destruct (kget p (xs_pipes s)) as [x|] eqn:KP.
+    2:{ inj H. rewrite (tx_of_ptx_none xp_held p _ KP). destruct (rv =? 0)%N; done. }
+    rewrite (tx_of_ptx_some xp_held p _ x I1 KP).
+    destruct (xpipe_sent p x rv) as [x' o1] eqn:E. inj H.
+    destruct (xpipe_sent_sum F _ _ _ _ _ E) as [S1 S2].
+    pose proof (QH_kset xp_q F p x' _ _ KP) as K1. pose proof (TH_kset xp_held F p x' _ _ KP) as K2.
+    xview fx. destruct (rv =? 0)%N; done.
+  - (* PRecvDone *)
+    cbn [xsurv_step] in H. cbn [op_add op_del v_rx VXsurv.view]. unfold VXsurv.rx.
+    destruct (N.eqb_spec rv 0) as [->|Hrv]; cbn [negb] in H; [|inj H; cbn [o_tx o_rel]; lia].
+    destruct (xsurv_recv (pm_body m)) as [hdr bd| |] eqn:SR; try (inj H; done).
+    destruct (kget p (xs_pipes s)) as [x|] eqn:KP; [|inj H; done].
+    destruct (xp_closed x); [inj H; done|].
+    destruct (urq_put (xs_urq s) p _) as [u' o1] eqn:E. inj H.
+    destruct (urq_put_sum F _ _ _ _ _ E) as [S1 S2]. xview fx. done.
+  - (* PSetOpt *)
+    cbn [xsurv_step] in H. cbn [op_add op_del].
+    destruct (raw_setopt fx (xs_ttl s) (xs_urq s) (xs_uwcap s) c op) as [[[t u] w] o1] eqn:E. inj H.
+    destruct (raw_setopt_sum F _ _ _ _ _ _ _ _ _ _ E) as [S1 S2]. xview fx. lia.
+  - cbn [xsurv_step] in H. inj H. cbn [op_add op_del o_tx o_rel]. lia.
+  - cbn [xsurv_step] in H. inj H. cbn [op_add op_del o_tx o_rel]. lia.
+  - (* PSockClose *)
+    cbn [xsurv_step] in H. cbn [op_add op_del].
+    destruct (urq_close (xs_urq s)) as [u' o1] eqn:E. inj H.
+    destruct (urq_close_sum F _ _ _ E) as [S1 S2]. xview fx. lia.
+  - cbn [xsurv_step] in H. inj H. cbn [op_add op_del o_tx o_rel]. lia.
+Qed.
+
+Lemma xsurv_inv_step fx s o s' outs : XSInv s -> xsurv_ok s o -> xsurv_step fx s o = (s', outs) -> XSInv s'.
+Proof.
+  unfold XSInv. intros HI Hok H.
+  destruct o as [c a nb m|c a nb|a rv|p peer|p|p rv|p rv m|c op|c|c| |now]; cbn [xsurv_step] in H.
+  - destruct (nb && negb (mf_nb fx)); [inj H; exact HI|].
+    destruct (xfanout m (xs_pipes s)) as [ps o1] eqn:X. inj H. destruct HI as [I1 I2].
+    destruct (xfanout_sum (fun _ => 0) _ _ _ _ I2 X) as (_ & _ & S3 & S4). split; cbn [xs_pipes]; [now rewrite S3|exact S4].
+  - destruct (urq_user_recv _ _ _ _). inj H. exact HI.
+  - destruct (urq_cancel _ _ _). inj H. exact HI.
+  - destruct (negb (peer =? PROTO_RESPONDENT)%N); inj H; [exact HI|]. apply pipes_inv_start; assumption.
+  - destruct (kget p (xs_pipes s)) as [x|] eqn:KP; [|inj H; exact HI].
+    destruct (urq_drop_writer _ _). inj H. cbn [xs_pipes]. apply pipes_inv_kset; [exact HI|].
+    pose proof (pipes_inv_get _ _ _ HI KP) as Hx. unfold xp_ok in *. cbn [xp_busy xp_held]. exact Hx.
+  - destruct (kget p (xs_pipes s)) as [x|] eqn:KP; [|inj H; exact HI].
+    destruct (xpipe_sent p x rv) as [x' o1] eqn:E. inj H. cbn [xs_pipes].
+    apply pipes_inv_kset; [exact HI|]. exact (proj2 (xpipe_sent_sum (fun _ => 0) _ _ _ _ _ E)).
+  - split_step H; exact HI.
+  - destruct (raw_setopt _ _ _ _ _ _) as [[[t u] w] o1]. inj H. exact HI.
+  - inj H. exact HI.
+  - inj H. exact HI.
+  - destruct (urq_close _). inj H. exact HI.
+  - inj H. exact HI.
+Qed.
+
+Theorem xsurv_proto_law : forall fx, proto_law (VXsurv.view fx) (xsurv_step fx) XSInv xsurv_ok.
+Proof.
+  intros fx s o s' outs HI Hok H. split; [exact (xsurv_inv_step fx s o s' outs HI Hok H)|]. split.
+  - apply law_sum_eq. exact (xsurv_law_sum fx s o s' outs HI Hok H).
+  - apply clones_held_intro. intros k Hk. right. left.
+    cbn [v_clones VXsurv.view] in Hk. unfold VXsurv.clones in Hk.
+    apply in_flat_map in Hk. destruct Hk as [m0 [Hm Hk]].
+    apply in_map_iff in Hk. destruct Hk as [px [<- _]].
+    destruct o as [c a nb m| | | | | | | | | | | ]; try destruct Hm.
+    cbn [VXsurv.accepted] in Hm. cbn [xsurv_step] in H.
+    destruct (nb && negb (mf_nb fx)); [destruct Hm|]. destruct Hm as [<-|[]].
+    destruct (xfanout m (xs_pipes s)) as [ps o1]. inj H.
+    exists a. split; [left; reflexivity|apply send_key_self].
+Qed.
+
+(* survey sent to two pipes, transport completion, a response queued and received, a blocked
+   receive served by the next response, receive buffer resized, pipe close, socket close *)
+Example xsurv_ok_nonvacuous :
+  ops_ok (xsurv_step mqfix_none) xsurv_ok xsurv_init
+    [PPipeStart 1 PROTO_RESPONDENT; PPipeStart 2 PROTO_RESPONDENT;
+     PSend None 1 false (mkPmsg [128; 0; 0; 1]%N [7%N]); PSendDone 1 0; PSendDone 2 0;
+     PRecvDone 1 0 (mkPmsg [] [128; 0; 0; 1; 9]%N); PRecv None 2 false; PRecv None 3 false;
+     PRecvDone 2 0 (mkPmsg [] [128; 0; 0; 1; 10]%N);
+     PSetOpt None (ORecvBuf 4); PCancel 4 20; PPipeClose 1; PSockClose].
+Proof. vm_compute. repeat split. Qed.
+
+(* ================================================================== *)
+(* raw RESPONDENT *)
+Definition XRInv (s : xresp) : Prop := pipes_inv (xr_pipes s).
+Definition xresp_ok (s : xresp) (o : pop) : Prop := raw_ok (xr_pipes s) o.
+
+Lemma xresp_inv_init : XRInv xresp_init.
+Proof. split; cbn; constructor. Qed.
+
+Lemma xresp_omega F s :
+  w_omega F view_xresp s = QH xp_q F (xr_pipes s) + US F (xr_urq s) + TH xp_held F (xr_pipes s).
+Proof.
+  unfold w_omega. cbn [view_xresp VXresp.view v_held v_tx v_att]. rewrite wsum_nil.
+  pose proof (raw_omega F (xr_pipes s) (xr_urq s)). lia.
+Qed.
+
+Ltac rview := rewrite !xresp_omega; cbn [xr_pipes xr_urq].
+
+Lemma xresp_law_sum fx s o s' outs :
+  XRInv s -> xresp_ok s o -> xresp_step fx s o = (s', outs) -> law_sum view_xresp s o s' outs.
+Proof.
+  intros HI Hok H. pose proof HI as [I1 I2].
+  destruct o as [c a nb m|c a nb|a rv|p peer|p|p rv|p rv m|c op|c|c| |now].
+  2-12: apply law_sum_quiet; [reflexivity|intros; discriminate|reflexivity|reflexivity|reflexivity|intros F].
+  - (* PSend *)
+    cbn [xresp_step] in H. intros F. cbv zeta.
+    change (v_extra view_xresp s (PSend c a nb m) outs) with (@nil pmsg).
+    change (v_clones view_xresp s (PSend c a nb m) ++ v_dups view_xresp s (PSend c a nb m)) with (@nil key).
+    cbn [map]. rewrite app_nil_r, wsum_nil. cbn [op_add op_del].
+    destruct (nb && negb (mf_nb fx)).
+    { inj H. cbn [s_take s_del]. rewrite send_key_self. change (E_AGAIN =? 0)%N with false. cbn iota. done. }
+    destruct (xresp_send (pm_hdr m)) as [[id hdr']|].
+    2:{ inj H. cbn [s_take s_del]. rewrite send_key_self. change (E_OK =? 0)%N with true. cbn iota. done. }
+    destruct (kget id (xr_pipes s)) as [x|] eqn:KP.
+    2:{ inj H. cbn [s_take s_del]. rewrite send_key_self. change (E_OK =? 0)%N with true. cbn iota. done. }
+    destruct (xp_closed x).
+    { inj H. cbn [s_take s_del]. rewrite send_key_self. change (E_OK =? 0)%N with true. cbn iota. done. }
+    destruct (xpipe_tryput XRESP_SENDQ id x _) as [x' o1] eqn:T. inj H.
+    destruct (xpipe_tryput_sum F _ _ _ _ _ _ (pipes_inv_get _ _ _ HI KP) T) as (T1 & T2 & T3).
+    destruct (s_quiet view_xresp F s (PSend c a nb m) o1 T2) as [A B].
+    pose proof (QH_kset xp_q F id x' _ _ KP) as K1. pose proof (TH_kset xp_held F id x' _ _ KP) as K2.
+    rview. cbn [s_take s_del]. rewrite send_key_self. change (E_OK =? 0)%N with true. cbn iota. rewrite A, B. done.
+  - (* PRecv *)
+    cbn [xresp_step] in H. cbn [op_add op_del].
+    destruct (urq_user_recv fx (xr_urq s) a nb) as [u' o1] eqn:E. inj H.
+    destruct (urq_user_recv_sum F _ _ _ _ _ _ E) as [S1 S2]. rview. lia.
+  - (* PCancel *)
+    cbn [xresp_step] in H. cbn [op_add op_del].
+    destruct (urq_cancel (xr_urq s) a rv) as [u' o1] eqn:E. inj H.
+    destruct (urq_cancel_sum F _ _ _ _ _ E) as [S1 S2]. rview. lia.
+  - (* PPipeStart *)
+    cbn [xresp_step] in H. cbn [op_add op_del].
+    destruct (negb (peer =? PROTO_SURVEYOR)%N); inj H; [cbn [o_tx o_rel]; lia|].
+    rview. rewrite QH_snoc, TH_snoc. cbn [xpipe_init xp_q xp_held]. done.
+  - (* PPipeClose *)
+    cbn [xresp_step] in H. cbn [op_add op_del].
+    destruct (kget p (xr_pipes s)) as [x|] eqn:KP; [|inj H; cbn [o_tx o_rel]; lia].
+    destruct (urq_drop_writer (xr_urq s) p) as [u' o1] eqn:E. inj H.
+    destruct (urq_drop_writer_sum F _ _ _ _ E) as [S1 S2].
+    pose proof (QH_kset xp_q F p (mkXpipe [] (xp_busy x) (xp_held x) true) _ _ KP) as K1.
+    pose proof (TH_kset xp_held F p (mkXpipe [] (xp_busy x) (xp_held x) true) _ _ KP) as K2.
+    cbn [xp_q xp_held] in K1, K2. rview. done.
+  - (* PSendDone *)
+    cbn [xresp_step] in H. cbn [op_add op_del v_tx view_xresp VXresp.view].
+    change (VXsurv.pipes_tx (xr_pipes s)) with (ptx xp_held (xr_pipes s)).
+    destruct (kget p (xr_pipes s)) as [x|] eqn:KP.
+    2:{ inj H. rewrite (tx_of_ptx_none xp_held p _ KP). destruct (rv =? 0)%N; done. }
+    rewrite (tx_of_ptx_some xp_held p _ x I1 KP).
+    destruct (xpipe_sent p x rv) as [x' o1] eqn:E. inj H.
+    destruct (xpipe_sent_sum F _ _ _ _ _ E) as [S1 S2].
+    pose proof (QH_kset xp_q F p x' _ _ KP) as K1. pose proof (TH_kset xp_held F p x' _ _ KP) as K2.
+    rview. destruct (rv =? 0)%N; done.
+  - (* PRecvDone *)
+    cbn [xresp_step] in H. cbn [op_add op_del v_rx view_xresp VXresp.view]. unfold VXresp.rx.
+    destruct (N.eqb_spec rv 0) as [->|Hrv]; cbn [negb] in H; [|inj H; cbn [o_tx o_rel]; lia].
+    destruct (xresp_recv p (xr_ttl s) (pm_body m)) as [hdr bd| |] eqn:SR; try (inj H; done).
+    destruct (kget p (xr_pipes s)) as [x|] eqn:KP; [|inj H; done].
+    destruct (xp_closed x); [inj H; done|].
+    destruct (urq_put (xr_urq s) p _) as [u' o1] eqn:E. inj H.
+    destruct (urq_put_sum F _ _ _ _ _ E) as [S1 S2]. rview. done.
+  - (* PSetOpt *)
+    cbn [xresp_step] in H. cbn [op_add op_del].
+    destruct (raw_setopt fx (xr_ttl s) (xr_urq s) (xr_uwcap s) c op) as [[[t u] w] o1] eqn:E. inj H.
+    destruct (raw_setopt_sum F _ _ _ _ _ _ _ _ _ _ E) as [S1 S2]. rview. lia.
+  - cbn [xresp_step] in H. inj H. cbn [op_add op_del o_tx o_rel]. lia.
+  - cbn [xresp_step] in H. inj H. cbn [op_add op_del o_tx o_rel]. lia.
+  - (* PSockClose *)
+    cbn [xresp_step] in H. cbn [op_add op_del].
+    destruct (urq_close (xr_urq s)) as [u' o1] eqn:E. inj H.
+    destruct (urq_close_sum F _ _ _ E) as [S1 S2]. rview. lia.
+  - cbn [xresp_step] in H. inj H. cbn [op_add op_del o_tx o_rel]. lia.
+Qed.
+
+Lemma xresp_inv_step fx s o s' outs : XRInv s -> xresp_ok s o -> xresp_step fx s o = (s', outs) -> XRInv s'.
+Proof.
+  unfold XRInv. intros HI Hok H.
+  destruct o as [c a nb m|c a nb|a rv|p peer|p|p rv|p rv m|c op|c|c| |now]; cbn [xresp_step] in H.
+  - destruct (nb && negb (mf_nb fx)); [inj H; exact HI|].
+    destruct (xresp_send (pm_hdr m)) as [[id hdr']|]; [|inj H; exact HI].
+    destruct (kget id (xr_pipes s)) as [x|] eqn:KP; [|inj H; exact HI].
+    destruct (xp_closed x); [inj H; exact HI|].
+    destruct (xpipe_tryput XRESP_SENDQ id x _) as [x' o1] eqn:T. inj H. cbn [xr_pipes].
+    apply pipes_inv_kset; [exact HI|].
+    exact (proj2 (proj2 (xpipe_tryput_sum (fun _ => 0) _ _ _ _ _ _ (pipes_inv_get _ _ _ HI KP) T))).
+  - destruct (urq_user_recv _ _ _ _). inj H. exact HI.
+  - destruct (urq_cancel _ _ _). inj H. exact HI.
+  - destruct (negb (peer =? PROTO_SURVEYOR)%N); inj H; [exact HI|]. apply pipes_inv_start; assumption.
+  - destruct (kget p (xr_pipes s)) as [x|] eqn:KP; [|inj H; exact HI].
+    destruct (urq_drop_writer _ _). inj H. cbn [xr_pipes]. apply pipes_inv_kset; [exact HI|].
+    pose proof (pipes_inv_get _ _ _ HI KP) as Hx. unfold xp_ok in *. cbn [xp_busy xp_held]. exact Hx.
+  - destruct (kget p (xr_pipes s)) as [x|] eqn:KP; [|inj H; exact HI].
+    destruct (xpipe_sent p x rv) as [x' o1] eqn:E. inj H. cbn [xr_pipes].
+    apply pipes_inv_kset; [exact HI|]. exact (proj2 (xpipe_sent_sum (fun _ => 0) _ _ _ _ _ E)).
+  - split_step H; exact HI.
+  - destruct (raw_setopt _ _ _ _ _ _) as [[[t u] w] o1]. inj H. exact HI.
+  - inj H. exact HI.
+  - inj H. exact HI.
+  - destruct (urq_close _). inj H. exact HI.
+  - inj H. exact HI.
+Qed.
+
+Theorem xresp_proto_law : forall fx, proto_law view_xresp (xresp_step fx) XRInv xresp_ok.
+Proof.
+  intros fx s o s' outs HI Hok H. split; [exact (xresp_inv_step fx s o s' outs HI Hok H)|]. split.
+  - apply law_sum_eq. exact (xresp_law_sum fx s o s' outs HI Hok H).
+  - apply clones_held_none. reflexivity.
+Qed.
+
+(* a survey arrives (ttl word, id word, body), is received, the reply is routed back by the
+   pipe id in its header; a reply for an unknown pipe is discarded; a second survey waits in
+   the queue; buffer resize, cancel, pipe close, socket close *)
+Example xresp_ok_nonvacuous :
+  ops_ok (xresp_step mqfix_none) xresp_ok xresp_init
+    [PPipeStart 1 PROTO_SURVEYOR; PRecv None 1 false;
+     PRecvDone 1 0 (mkPmsg [] [128; 0; 0; 1; 9]%N);
+     PSend None 2 false (mkPmsg [0; 0; 0; 1; 128; 0; 0; 1]%N [5%N]); PSendDone 1 0;
+     PSend None 3 false (mkPmsg [0; 0; 0; 9; 128; 0; 0; 1]%N [6%N]);
+     PRecvDone 1 0 (mkPmsg [] [128; 0; 0; 2; 10]%N);
+     PSetOpt None (ORecvBuf 4); PCancel 4 20; PPipeClose 1; PSockClose].
+Proof. vm_compute. repeat split. Qed.
+
+Print Assumptions surv_proto_law.
+Print Assumptions xsurv_proto_law.
+Print Assumptions xresp_proto_law.
